@@ -1067,21 +1067,29 @@ pub fn behaviour_scenario(b: &Value, idx: usize) -> Cfg {
 /// Runs one scenario; `start` builds and starts the real App for this runtime.
 pub fn run_scenario<F>(cfg: Cfg, rng: &mut hvutil::Rng, start: F) -> (Value, bool)
 where
-    F: FnOnce(&Cfg, Arc<Ctx>, u16) -> Server,
+    F: Fn(&Cfg, Arc<Ctx>, u16) -> Server,
 {
-    let ctx = Ctx::new();
-    set_current(Some(ctx.clone()));
-    let port = pick_port(rng);
-    let server = start(&cfg, ctx.clone(), port);
-    let target: SocketAddr = if cfg.bind.contains(':') { format!("[::1]:{}", port) } else { format!("127.0.0.1:{}", port) }.parse().unwrap();
-    let mut d = Driver { ctx: ctx.clone(), cfg: cfg.clone(), port, target, clis: HashMap::new(), server, sig_sent: false, problems: vec![], hang: false, grants: HashMap::new(), seen: HashMap::new() };
-    // the server must be listening before the script starts (observed without connecting)
-    let up = wait_cond(&ctx, || listening(port) || ctx.has_event("Run_Return"));
-    if !up || ctx.has_event("Run_Return") {
-        d.problems.push("server did not start listening".into());
-        set_current(None);
-        return (json!({"scenario": cfg.id, "tool_error": "server did not start", "problems": d.problems}), false);
-    }
+    // the server must be listening before the script starts (observed without connecting); a port taken by
+    // somebody else between the probe and the bind is retried with another port
+    let mut attempt = 0;
+    let (ctx, mut d) = loop {
+        attempt += 1;
+        let ctx = Ctx::new();
+        set_current(Some(ctx.clone()));
+        let port = pick_port(rng);
+        let server = start(&cfg, ctx.clone(), port);
+        let target: SocketAddr = if cfg.bind.contains(':') { format!("[::1]:{}", port) } else { format!("127.0.0.1:{}", port) }.parse().unwrap();
+        let d = Driver { ctx: ctx.clone(), cfg: cfg.clone(), port, target, clis: HashMap::new(), server, sig_sent: false, problems: vec![], hang: false, grants: HashMap::new(), seen: HashMap::new() };
+        let up = wait_cond(&ctx, || listening(port) || ctx.has_event("Run_Return"));
+        if up && !ctx.has_event("Run_Return") {
+            break (ctx, d);
+        }
+        if attempt >= 4 {
+            set_current(None);
+            return (json!({"scenario": cfg.id, "tool_error": "server did not start", "problems": d.problems}), false);
+        }
+    };
+    let _ = &ctx;
     let steps = cfg.steps.clone();
     for st in &steps {
         d.step(st);
@@ -1144,8 +1152,27 @@ where
                 }
             }
         }
+        "script" => {
+            // stdin: scenarios as printed by this program (fields rt nw bind nc sigkind steps): re-run them
+            for line in hvutil::stdin_lines() {
+                if let Ok(v) = serde_json::from_str::<Value>(&line) {
+                    if v["rt"].as_str() == Some(rt) {
+                        scenarios.push(Cfg {
+                            id: v["scenario"].as_str().unwrap_or("script").to_string(),
+                            rt: rt.to_string(),
+                            nw: v["nw"].as_u64().unwrap_or(1) as usize,
+                            bind: v["bind"].as_str().unwrap_or("127.0.0.1").to_string(),
+                            nc: v["nc"].as_u64().unwrap_or(0) as usize,
+                            sigkind: v["sigkind"].as_str().unwrap_or("send").to_string(),
+                            steps: v["steps"].as_array().cloned().unwrap_or_default(),
+                            expect: v["expect"].clone(),
+                        });
+                    }
+                }
+            }
+        }
         _ => {
-            eprintln!("usage: shutdown matrix <n> | races | replay   (C20_SKIP=k skips the first k scenarios)");
+            eprintln!("usage: shutdown matrix <n> | races | replay | script   (C20_SKIP=k skips the first k scenarios)");
             std::process::exit(2);
         }
     }
